@@ -31,7 +31,8 @@ def obligations(tier):
     # the same property under unusual-but-legal configurations (rounding, naming, candlestick type, other inputs)
     for name, kw, w, extra in CONFIG_VARIANTS:
         n = w + (2 if name in HEAVY else 3)
-        for tf, fill, nn in ((None, False, n), ("T2", True, 2 * (w + 1) + 1)):
+        for tf, fill, nn in ((None, False, n), ("T2", True, 2 * (w + 1) + 1)) + ((("T2", False, 2 * (w + 2)),) if "candlestick_type" in extra else ()):
+            # (candlestick types: also an even number of candles, so that the stream stops right after a merge into the open bucket)
             if tf and name in HEAVY and tier == "quick":
                 continue
             obs.append(Ob(f"cfg:{spec_name(('ind', name, kw))}{extra}/tf={tf}/fill={fill}/n={nn}", dict(spec=["ind", name, kw], n=nn, tf=tf, fill=fill, sched="family", extra=extra), EQ,
